@@ -92,11 +92,15 @@ def rust_ty(text):
 # kind: 'free' (no self), 'assoc' (Self::f, takes M), 'bump' (&self on Bump: takes E M, threads s when st), 'chunk' (&self on ChunkFooter)
 # mode: 'pure' (no arena state) | 'read' (reads s, returns Outcome) | 'st' (threads s)
 class Fn:
-    def __init__(self, name, kind, mode, file="src/lib.rs", anchor=None, nth=0, group="Arith", lean=None, self_ty=None):
+    def __init__(self, name, kind, mode, file="src/lib.rs", anchor=None, nth=0, group="Arith", lean=None, self_ty=None,
+                 region=None, free=None):
         self.name, self.kind, self.mode, self.file, self.anchor, self.nth, self.group = name, kind, mode, file, anchor, nth, group
         self.lean = lean or name
         self.self_ty = self_ty
         self.sig = None
+        # region: translate only a part of the body ("err_arm": the statements of the `Err(e) => { … }` arm of the function's
+        # `match`, without its final expression); `free` declares the locals of the enclosing function the region reads
+        self.region, self.free = region, free or []
 
 
 FUNCS = [
@@ -122,6 +126,10 @@ FUNCS = [
     Fn("dealloc", "bump", "st", group="Realloc", anchor="unsafe fn is_last_allocation"),
     Fn("shrink", "bump", "st", group="Realloc", anchor="unsafe fn is_last_allocation"),
     Fn("grow", "bump", "st", group="Realloc", anchor="unsafe fn is_last_allocation"),
+    Fn("alloc_try_with", "bump", "st", group="Rewind", lean="alloc_try_with_rewind", region="err_arm",
+       free=[("rewind_footer", "NonNull<ChunkFooter>"), ("rewind_ptr", "NonNull<u8>"), ("inner_result_ptr", "NonNull<u8>")]),
+    Fn("try_alloc_try_with", "bump", "st", group="Rewind", lean="try_alloc_try_with_rewind", region="err_arm",
+       free=[("rewind_footer", "NonNull<ChunkFooter>"), ("rewind_ptr", "NonNull<u8>"), ("inner_result_ptr", "NonNull<u8>")]),
 ]
 FUNCS += [
     Fn("cap", "rawvec", "read", file="src/collections/raw_vec.rs", group="RawVec", lean="rv_cap"),
@@ -1124,6 +1132,25 @@ open Bump
 """
 
 
+def find_err_arm(e):
+    """the body of the first `Err(x) => …` arm of a `match` anywhere in the AST"""
+    if isinstance(e, tuple):
+        if e and e[0] == "match":
+            for pat, guard, body in e[2]:
+                if pat[0] == "pts" and pat[1][-1] == "Err":
+                    return body
+        for x in e:
+            r = find_err_arm(x)
+            if r is not None:
+                return r
+    elif isinstance(e, list):
+        for x in e:
+            r = find_err_arm(x)
+            if r is not None:
+                return r
+    return None
+
+
 def translate_all(repo):
     srcs = {}
     report = {}
@@ -1135,6 +1162,15 @@ def translate_all(repo):
             if f.file not in srcs:
                 srcs[f.file] = rsparse.strip_comments(open(os.path.join(repo, f.file)).read())
             sig, body = rsparse.find_fn(srcs[f.file], f.name, f.nth, f.anchor)
+            if f.region == "err_arm":
+                arm = find_err_arm(body)
+                if arm is None:
+                    raise Untranslatable("no `Err(e) => { … }` match arm found")
+                blk = arm[1] if arm[0] == "unsafe" else arm
+                if blk[0] != "block":
+                    raise Untranslatable("the Err arm is not a block")
+                body = ("block", blk[1], None)
+                sig = {"name": f.name, "params": [("self", "Self")] + list(f.free), "ret": "()"}
             f.sig = sig
             text = Tr(f, sig, body).function()
             groups.setdefault(f.group, []).append((f, text, None))
@@ -1147,7 +1183,7 @@ def translate_all(repo):
 
 
 GROUP_IMPORTS = {"Arith": [], "Details": ["Arith"], "Limit": ["Arith"], "Footer": ["Arith"], "Fast": ["Arith", "Footer"],
-                 "Realloc": ["Arith", "Fast", "Footer", "Limit"], "RawVec": [], "Reset": ["Arith", "Footer"]}
+                 "Realloc": ["Arith", "Fast", "Footer", "Limit"], "RawVec": [], "Reset": ["Arith", "Footer"], "Rewind": ["Arith", "Footer", "Limit", "Fast", "Realloc"]}
 GROUP_PRELUDE = {"RawVec": "BumpVerif.Model.RsVec"}
 
 
